@@ -223,6 +223,7 @@ def run_real(cfg, *, seed=1234, storage="mem", delays=None, event_dir=None, init
     P.PLAN["signal_dir"] = signal_dir
     P.PLAN["initfail"] = cfg.get("initfail") if (cfg.get("initfail") or {}).get("stage") else None
     P._FIRED[0] = False
+    P._FIRED_CHAINS.clear()
     P._SEQ[0] = 0
     bitgen, kind = cfg_rng(cfg)
     P.PLAN["draw"] = kind
@@ -254,6 +255,7 @@ def run_real(cfg, *, seed=1234, storage="mem", delays=None, event_dir=None, init
             P.PLAN["interrupt"] = cfg["intr"] if cfg["intr"]["stage"] else None
             P.PLAN["initfail"] = saved_initfail
             P._FIRED[0] = False
+            P._FIRED_CHAINS.clear()
             transitions["probe"].pfast, transitions["probe"].pslow = P.USER, P.USER
     obs = {"exception": None}
     import contextlib
